@@ -42,6 +42,108 @@ def parse(src):
     return CParser().parse(src)
 
 
+HANDLERS = ("binary_op", "constant", "id", "unary_asgn", "unary_op", "if_stmt", "while_loop", "for_loop", "compound")
+
+
+class DispatchTrace:
+    """records which handler Analysis.compute_relation dispatches to, in order (wrapping done from the harness
+    process only); used to validate the reader tools/cread.py against the real dispatch on every run"""
+    def __init__(self):
+        self.calls = []
+
+    def __enter__(self):
+        from pymwp import Analysis
+        self.saved = {}
+        for h in HANDLERS:
+            orig = getattr(Analysis, h)
+            self.saved[h] = Analysis.__dict__[h]
+
+            def wrap(orig=orig, h=h):
+                def f(*a, **k):
+                    self.calls.append(h)
+                    return orig(*a, **k)
+                return staticmethod(f)
+            setattr(Analysis, h, wrap())
+        return self
+
+    def __exit__(self, *a):
+        from pymwp import Analysis
+        for h, v in self.saved.items():
+            setattr(Analysis, h, v)
+
+
+def predicted_dispatch(f):
+    """the handler sequence the typed reading predicts (pre-order), following the rewriting of unary assignments"""
+    out = []
+
+    def stmt(s):
+        k = s[0]
+        if k == "skip":
+            return
+        if k == "bin":
+            out.append("binary_op")
+            if s[3][0] == "cst" and s[4][0] == "cst":
+                out.append("constant")
+        elif k == "const":
+            out.append("constant")
+        elif k == "copy":
+            out.append("id")
+        elif k == "unasg":
+            out.append("unary_asgn")
+            x, op, e = s[1], s[2], s[3]
+            if op in ("!", "sizeof") or e[0] == "ucst":
+                out.append("constant")
+            elif e[0] == "uvar":
+                y = e[1]
+                if op in calc.INC_DEC:
+                    inc = ["binary_op"]
+                    cp = ["id"]
+                    out.append("compound")
+                    out.extend(inc + cp if op in calc.PREFIX else cp + inc)
+                elif op == "-":
+                    out.append("binary_op")
+                elif op == "+":
+                    out.append("id")
+        elif k == "unary":
+            out.append("unary_op")
+            if s[1] in calc.INC_DEC and s[2][0] == "uvar":
+                out.append("binary_op")
+        elif k == "if":
+            out.append("if_stmt")
+            for x in s[1]:
+                stmt(x)
+            for x in s[2]:
+                stmt(x)
+        elif k == "while":
+            out.append("while_loop")
+            stmt(s[2])
+        elif k == "for":
+            out.append("for_loop")
+            if calc.loop_compat(s) is not None:
+                stmt(s[5])
+        elif k == "block":
+            out.append("compound")
+            for x in s[1]:
+                stmt(x)
+    for s in f[2]:
+        stmt(s)
+    return out
+
+
+def reader_mismatch(d):
+    """None, or a description of how the real dispatch differs from what the typed reading predicts
+    (the real sequence may be a proper prefix only when the analysis stopped early)"""
+    if d.get("typed") is None or d.get("dispatch") is None:
+        return None
+    if d["infinite"]:
+        return None      # early exits skip parts of the program (and, with fin, resume later): not comparable
+    pred, real = predicted_dispatch(d["typed"]), d["dispatch"]
+    if real == pred:
+        return None
+    n = next((i for i, (a, b) in enumerate(zip(pred, real)) if a != b), min(len(pred), len(real)))
+    return f"reader/dispatch mismatch at call {n}: predicted {pred[n:n+3]} real {real[n:n+3]}"
+
+
 def run_real(src, fin, strict, timeout=30, fname=None):
     """Analysis.run on C text. Returns dict per function: observables + the typed reading of the AST that
     was analysed (after the tool's own removal pass)."""
@@ -53,8 +155,11 @@ def run_real(src, fin, strict, timeout=30, fname=None):
     except Exception as e:
         out["exc"] = ["ParseError", str(e)[:80]]
         return out
+    nfuncs = sum(1 for e_ in ast.ext if type(e_).__name__ == "FuncDef")
+    trace = DispatchTrace()
     try:
-        res = vlib.with_timeout(lambda: Analysis.run(ast, fin=fin, strict=strict), timeout)
+        with trace:
+            res = vlib.with_timeout(lambda: Analysis.run(ast, fin=fin, strict=strict), timeout)
     except vlib.CaseTimeout:
         out["exc"] = ["Timeout", None]
         return out
@@ -78,7 +183,8 @@ def run_real(src, fin, strict, timeout=30, fname=None):
         k = fr.index
         d = {"typed": typed, "infinite": bool(fr.infinite), "index": k, "variables": list(fr.variables),
              "relation": None, "valid": None, "first": None, "bound": None, "inf_flows": fr.inf_flows,
-             "has_choices": fr.choices is not None, "has_bound": fr.bound is not None}
+             "has_choices": fr.choices is not None, "has_bound": fr.bound is not None,
+             "dispatch": list(trace.calls) if nfuncs == 1 else None}
         if fr.relation is not None:
             d["relation"] = {"vars": list(fr.relation.variables),
                              "matrix": [[PL.to_data(p) for p in row] for row in fr.relation.matrix]}
